@@ -44,16 +44,16 @@ var patterns = gen.ZeroPatterns
 
 // directed zero-pattern triples (receiver, first operand, second operand)
 var patternTriples = [][3]string{
-	{"all-zero", "none", "none"},              // absent receiver entries, full operands
-	{"all-zero", "interleaved", "none"},       //
-	{"none", "all-zero", "none"},              // absent operand entries under a full receiver
-	{"none", "none", "all-zero"},              //
+	{"all-zero", "none", "none"},                              // absent receiver entries, full operands
+	{"all-zero", "interleaved", "none"},                       //
+	{"none", "all-zero", "none"},                              // absent operand entries under a full receiver
+	{"none", "none", "all-zero"},                              //
 	{"explicit-stored", "explicit-stored", "explicit-stored"}, // stored zeros everywhere
 	{"interleaved", "interleaved", "interleaved"},             // common absent positions
-	{"leading", "trailing", "none"},           //
-	{"trailing", "leading", "random"},         //
-	{"random", "explicit-stored", "none"},     //
-	{"none", "none", "none"},                  //
+	{"leading", "trailing", "none"},                           //
+	{"trailing", "leading", "random"},                         //
+	{"random", "explicit-stored", "none"},                     //
+	{"none", "none", "none"},                                  //
 	{"explicit-stored", "none", "explicit-stored"},
 	{"all-zero", "all-zero", "all-zero"},
 }
